@@ -4,10 +4,11 @@ reg(Check(
     "C06", "c06",
     coq_targets=["Match/MatchCheck.vo", "Match/MatchProofs.vo", "Props/C06.vo"],
     assumptions=[
-        "single goroutine: the trie is only touched under Match.mu (write lock for AddQuery/remove, read lock for Update); lock discipline is not modelled",
+        "lock discipline of Match.mu is modelled as an LTS (Update/UpdateOnce = RLock; client callbacks inside the read-locked section; RUnlock -- removal closure / AddQuery = Lock; change; Unlock) over a lock that admits a reader iff no writer holds it and a writer iff nobody holds it; sync.RWMutex itself (incl. its writer preference, which only removes behaviours) and the Go memory model are trusted, not modelled",
+        "the shared `updated` map of one notification is used by one goroutine (UpdateNotification is sequential); concurrent AddQuery for the very pair whose removal is considered is excluded in C06_no_delivery_after_remove_concurrent",
         "notification Update entries are non-nil messages (a nil *gnmi.Update inside the repeated field cannot come off the wire)",
     ],
     modelled=["match/match.go: AddQuery and its removal closure, removeQuery pruning, Update, UpdateOnce, branch.update; subscribe/subscribe.go: UpdateNotification, Server.Update, addSubscription (incl. Go slice/append semantics of the captured query; the pre-fix variants are kept as _gen false); path.ToStrings / CompletePath via Path/PathModel.v; ctree Add/Query via CTree/CTreeModel.v for the snapshot side"],
 ),
-    level_text="Theorems in coq/Props/C06.v state the property over the Gallina model of the subscription trie and of subscribe's UpdateNotification/addSubscription for all registration/removal histories and all paths (offered iff compatible, containment of ctree.Query's relation, at most one offer per notification, nothing after removal, other clients unaffected, pruning); the model is tied to match/match.go and subscribe/subscribe.go by a correspondence run (every query/update pair to length 4 over {a,b,*}, two-query tries to length 3, seeded subscribe-level and mixed sequences) evaluated inside Coq, which also applies the set-of-registrations specification to the implementation's own observations.",
-    level_note="Trusted: Coq kernel + vm_compute, the hand-written model (validated only on the explored cases), the Go harness projection (offers counted through the real coalescing queue as 1 + duplicates). Single goroutine; prefixes of at most 20 index strings.")
+    level_text="Theorems in coq/Props/C06.v state the property over the Gallina model of the subscription trie and of subscribe's UpdateNotification/addSubscription for all registration/removal histories and all paths (offered iff compatible, containment of ctree.Query's relation, at most one offer per notification, nothing after removal -- also for every interleaving of concurrent Update / removal / AddQuery calls under the lock discipline of Match.mu --, other clients unaffected, pruning); the model is tied to match/match.go and subscribe/subscribe.go by a correspondence run (every query/update pair to length 4 over {a,b,*}, two-query tries to length 3, seeded subscribe-level, concurrent (removal closures called from inside a client callback) and mixed sequences) evaluated inside Coq, which also applies the set-of-registrations specification to the implementation's own observations.",
+    level_note="Trusted: Coq kernel + vm_compute, the hand-written model (validated only on the explored cases), the Go harness projection (offers counted through the real coalescing queue as 1 + duplicates). sync.RWMutex trusted.")
